@@ -502,7 +502,7 @@ func c11Run(r *core.Run) {
 	r.Assumptions = []string{"HEAD requests are not compared for programs that call Routes() with GET while AutoHead is on (whether that GET gets a HEAD twin is not fixed by the statement)"}
 	r.Parallel(func(w, nw int, l *core.Local) {
 		for pi := w; pi < len(progs); pi += nw {
-			if pi%16 == 0 && r.Expired() {
+			if r.Expired() {
 				return
 			}
 			l.States++
